@@ -196,7 +196,7 @@ EXTRA_TEXT = {
            "rank-changing memory-only operators, EXP / SQUARED_DIFFERENCE.",
     "C14": "Histories include models whose interface lists repeat a tensor and models in which several tensors carry the same name.",
     "C19": "Near-twin tables (two LeakyReLUs whose tables differ in one or two entries) must both be found in the constants of the output file.",
-    "C16": "Predicates for the two broadcast sentences; boundary networks with lower-rank second operands (variable and constant, either order) and a non-broadcastable pair.",
+    "C16": "Predicates for the two broadcast sentences; boundary networks with lower-rank second operands (variable and constant, either order) and a non-broadcastable pair; int8 convolutions with an asymmetric filter under three option sets.",
 }
 for _pid, _t in EXTRA_TEXT.items():
     CHECKS[_pid]["text"] += " " + _t
